@@ -32,6 +32,7 @@ const (
 	kRestart
 	kQuery
 	kGossip
+	kIOFault
 )
 
 // reason families: which property owns which block-rejection reason
@@ -53,7 +54,16 @@ type ledgerSim struct {
 
 func (s *ledgerSim) now() uint64 { return uint64(time.Now().UTC().Unix()) }
 
+// clockLimit: the fake clock counts nanoseconds in an int64 (it overflows in 2262, and go1.26.8's bubble timers
+// crash the process with "bad g->status in ready" when a sleep runs past that); jumps stop short of it.  Block
+// times beyond it are still exercised, because forged blocks carry arbitrary 64-bit times.
+var clockLimit = time.Date(2200, 1, 1, 0, 0, 0, 0, time.UTC)
+
 func (s *ledgerSim) advance(d time.Duration) {
+	if rest := clockLimit.Sub(time.Now()); d > rest {
+		d = rest
+		s.c.Count("probe.clock_limit_reached")
+	}
 	if d > 0 {
 		time.Sleep(d)
 		s.c.SimNanos += int64(d)
@@ -139,6 +149,10 @@ func (s *ledgerSim) step() {
 		s.opTieBurst()
 		return
 	}
+	if t.Chance("io-fault", 1, 25) {
+		s.opIOFault()
+		return
+	}
 	switch t.Pick("op", mix.inject, mix.mut, mix.re, mix.create, mix.deliver, mix.forge, mix.refresh, mix.rminv, mix.clock, mix.restart, mix.query, mix.gossip) {
 	case 0:
 		s.opInject(false)
@@ -164,6 +178,89 @@ func (s *ledgerSim) step() {
 		s.opQuery()
 	case 11:
 		s.opGossip()
+	}
+}
+
+var errSimIO = fmt.Errorf("simulated disk I/O error at the start of a database transaction")
+
+// opIOFault: the next database transaction of one node fails before it begins (hook H1).  The operation that
+// needed it must report an error, the database content must be exactly what it was, and - because the shadow
+// model is not told about the operation - everything the node answers afterwards must still agree with the
+// model, i.e. nothing of the failed operation may survive in memory either.
+func (s *ledgerSim) opIOFault() {
+	c := s.c
+	t := c.T
+	n := s.pickNode()
+	fired := 0
+	dbutil.VerifBeforeUpdate = func(db *dbutil.DB, name string) error {
+		if db.Path() != n.path || fired > 0 {
+			return nil
+		}
+		fired++
+		c.Logf("I/O error injected into n%d transaction %q", n.id, name)
+		return errSimIO
+	}
+	defer func() { dbutil.VerifBeforeUpdate = nil }()
+	before := n.dbFingerprint(nil)
+	var err error
+	what := ""
+	switch t.Pick("io-op", 4, 4, 2, 2) {
+	case 0: // a valid new transaction
+		tx, ok := s.w.mkSpend(n.m, false)
+		if !ok {
+			return
+		}
+		what = "inject " + short(tx.Hash())
+		if t.Bool("io-user") {
+			_, _, _, err = n.v.InjectUserTransaction(cTxn(&tx))
+		} else {
+			_, _, err = n.v.InjectForeignTransaction(cTxn(&tx))
+		}
+		s.known = append(s.known, tx)
+	case 1: // the next block
+		if n.publisher {
+			s.advance(time.Duration(1+t.Int("create-gap", 20)) * time.Second)
+			what = "create-block"
+			_, err = n.v.CreateAndExecuteBlock()
+			if err != nil && fired == 0 {
+				return // nothing to create: no transaction was attempted
+			}
+		} else {
+			next := len(n.m.Chain)
+			if next < 1 || next > len(s.pubBlocks) {
+				return
+			}
+			what = fmt.Sprintf("execute block %d", next)
+			err = n.v.ExecuteSignedBlock(cBlock(&s.pubBlocks[next-1]))
+		}
+	case 2:
+		what = "refresh"
+		_, err = n.v.RefreshUnconfirmed()
+	case 3:
+		what = "remove-invalid"
+		_, err = n.v.RemoveInvalidUnconfirmed()
+	}
+	if fired == 0 {
+		// the operation needed no write transaction (e.g. refused earlier): then it must not have written either
+		if n.dbFingerprint(nil) != before && err != nil {
+			c.Violate("failed-op-changed-db", strings.Fields(what)[0], "n%d %s returned %v but the database content changed", n.id, what, err)
+		}
+		if err == nil {
+			// it succeeded without writing: only possible when there was nothing to do; the model is not updated, so any
+			// real effect shows up in the invariants
+			c.Count("probe.io_fault_not_reached")
+		}
+		return
+	}
+	c.Count("fault.io_error_at_txn_begin")
+	c.Kind(kIOFault, err != nil)
+	c.Logf("n%d %s with failing disk -> %v", n.id, what, err)
+	if err == nil {
+		c.Violate("io-error-swallowed", strings.Fields(what)[0], "n%d %s reported success although its database transaction failed with an I/O error", n.id, what)
+		return
+	}
+	if n.dbFingerprint(nil) != before {
+		c.Violate("failed-op-changed-db", strings.Fields(what)[0], "n%d %s failed with %v but the database content changed", n.id, what, err)
 	}
 }
 
